@@ -26,10 +26,12 @@ X86_FAM = {r: f for f, rs in X86_GPR.items() for r in rs}
 for _n in range(3):
     for _p in "xyz":
         X86_FAM["%smm%d" % (_p, _n)] = "V%d" % _n
+for _n in range(3):
+    X86_FAM["mm%d" % _n] = "MMX%d" % _n  # the MMX registers are a register file of their own (mm1 is not xmm1)
 X86_ADDR = ["rax", "rbx", "rcx", "rsi", "rbp", "r8", "r9"]
 X86_FLAGS = ["CF", "ZF", "SF", "OF"]
 A64_FLAGS = ["N", "Z", "C", "V"]
-X86_KINDS = ["gpr", "gpr", "gpr", "xmm", "ymm", "zmm", "imm"]
+X86_KINDS = ["gpr", "gpr", "gpr", "xmm", "ymm", "zmm", "mm", "imm"]
 A64_KINDS = ["x", "x", "w", "d", "q", "s", "v2d", "zd", "imm"]
 
 
@@ -238,7 +240,7 @@ def _mem(draw, isa, form, p, pos, role, lcd_safe=False):
 
 # ------------------------------------------------------------------ model files
 def _x86_op(kind, role=None):
-    if kind in ("gpr", "xmm", "ymm", "zmm"):
+    if kind in ("gpr", "xmm", "ymm", "zmm", "mm"):
         o = {"class": "register", "name": kind}
     elif kind == "imm":
         o = {"class": "immediate", "imd": "int"}
